@@ -63,7 +63,7 @@ def boolStr (b : Bool) : String := if b then "1" else "0"
     itself (`Spec.C20.solvePV/solvePMT`); beyond it from the closed form, which the theorems
     `solvePV_eq` / `solvePMT_eq` prove equal (exact rationals with 20 000-bit denominators make the
     recursion slow, not different). -/
-def recursionLimit : Nat := 64
+def recursionLimit : Nat := 400
 
 def natOf? (q : Rat) : Option Nat := if q.den = 1 ∧ 0 ≤ q.num then some q.num.toNat else none
 
